@@ -16,7 +16,7 @@ def cb_calls(f, field='cb_fulfill'):
     return [e for e in f.calls() if e.fn is None and e.callee is not None and e.callee.k == 'mem' and e.callee.n == field]
 
 
-def run(ctx):
+def _run(ctx):
     ctx.explanation = ('Static ordering/guard clauses: base future — status update and callback only on the success edge of CAS(tracked_data, NULL, data), ordered CAS -> wmb -> status -> callback; '
                        'get() reads tracked_data only after is_ready and rmb. Countable — completion on the branch where the post-value of fetch_dec(count) is 0, one decrement per set. '
                        'Data-copy — cb_fulfill only inside the future_lock region, guarded by !(status & TRIGGERED) tested under the lock, status |= TRIGGERED before the callback; '
@@ -151,3 +151,10 @@ def run(ctx):
     st = status_or(f, C)
     rc.expect(td and st and all(f.precedes(td[0], s) for s in st), 'dc:set-order', (st or td or [None])[0].loc if (st or td) else f.where(),
               'datacopy set must store tracked_data before marking COMPLETED', note='tracked_data stored before COMPLETED')
+
+
+
+def run(ctx):
+    _run(ctx)
+    from rules import whowrites
+    whowrites.thorough(ctx, 'C29')
